@@ -94,7 +94,7 @@ def opDataset (hdr : List Int) (Farg : FilterArg) (poolIds poolNs listing filter
       match (poolIds.zip poolNs).lookup f with
       | some n => if n < 0 then none else some n.toNat
       | none => none
-    match buildH5 listingSortedCurrent (fun a b => decide (a ≤ b)) sel nOf F with
+    match buildH5 listingSortedCurrent dedupCurrent (fun a b => decide (a ≤ b)) sel nOf F with
     | .error e => "err " ++ errName e
     | .ok P =>
       let nMain (f : Int) : Nat := (nOf f).getD 0
@@ -117,7 +117,12 @@ def opCmr (ctxCode mode : Int) (ids0 as0 bs0 idxs : List Int) : String :=
   let ctx : CmrContext := if ctxCode = 1 then .slice else if ctxCode = 2 then .time else .none
   -- mode 0: `ids0` is the directory listing in OS order; mode 1: `filenames_filter`
   let table := ids0.zip (as0.zip bs0)
-  let ids := if mode = 0 ∧ cmrListingSortedCurrent then sortFiles (fun a b => decide (a ≤ b)) ids0 else ids0
+  let sel : Selection Int :=
+    { listing := ids0, filter := if mode = 0 then none else some ids0, lists := none, listsRootGiven := false,
+      hasRegex := false, regexOk := fun _ => true }
+  let ids := match selectFiles cmrListingSortedCurrent dedupCurrent (fun a b => decide (a ≤ b)) sel with
+    | .ok fs => fs
+    | .error _ => []
   let as := ids.map fun f => ((table.lookup f).getD (-1, -1)).1
   let bs := ids.map fun f => ((table.lookup f).getD (-1, -1)).2
   let shapes := ids.zip (as.zip bs)
